@@ -7,7 +7,7 @@
 //        dispatch_apply_f(n, lev[0]) (inside an outer apply of <nest> iterations / inside a sync on lev[0] when asked).
 //        Prints every level's dq_state before / during (first callout) / after, the per-index oracle verdicts, and
 //        at the end the recorder dump: every atomic operation src/apply.c performed (dq_state of the levels:
-//        obj 2000+level; fields of the shared apply record: obj < 64, offset within struct dispatch_apply_s).
+//        obj 2000+level; fields of the shared apply record: obj < 2000, offset within struct dispatch_apply_s).
 //   c10_apply stress <seed> <rounds> <permille> <bigrounds>   stress through the public API, see below.
 // A watchdog ends the process with "HANG ..." when no apply returns for 20 s.
 #include "internal.h"
@@ -25,7 +25,7 @@ extern void dispatch_queue_set_width(dispatch_queue_t dq, long width);
 // ---------------------------------------------------------------- recorder
 #define QOBJ 2000
 #define MAXQ 256
-#define MAXB 64
+#define MAXB 4096
 #define REC_LIMIT 300   /* participations of applies with more iterations are not recorded (volume) */
 static _Atomic int c10_rec; static int c10_permille; static __thread uintptr_t skip_base;
 static _Atomic uintptr_t qtab[MAXQ]; static _Atomic int nqtab;
@@ -39,9 +39,16 @@ static int base_lookup(uintptr_t p) {
 	for (int i = 0; i < n; i++) { uintptr_t b = atomic_load_explicit(&bases[i], memory_order_relaxed); if (b && p >= b && p < b + sizeof(struct dispatch_apply_s)) return i; }
 	return -1;
 }
+static atomic_flag base_lock = ATOMIC_FLAG_INIT;
 static int base_register(uintptr_t b) {
-	int i = base_lookup(b); if (i >= 0 && atomic_load(&bases[i]) == b) return i;
-	i = atomic_fetch_add(&nbases, 1) % MAXB; atomic_store(&bases[i], b); return i;
+	while (atomic_flag_test_and_set_explicit(&base_lock, memory_order_acquire)) ;
+	int i = base_lookup(b);
+	if (!(i >= 0 && atomic_load(&bases[i]) == b)) {
+		i = atomic_load(&nbases); if (i >= MAXB) { fprintf(stderr, "c10: too many distinct apply records\n"); abort(); }   // never evict
+		atomic_store(&bases[i], b); atomic_store(&nbases, i + 1);
+	}
+	atomic_flag_clear_explicit(&base_lock, memory_order_release);
+	return i;
 }
 static void c10_cb(const volatile void *addr, unsigned size, int kind, int order, unsigned long long a, unsigned long long b,
 		int ok, const char *file, int line) {
